@@ -196,6 +196,24 @@ mut("c19-silent-filter-direct", "C19", "feature.go",
     "\tindices := make([]int, 0, len(ff))\n\tfor i, f := range ff {\n\t\tif filter(NewFeature(f.Key, f.Loc, f.Props)) {\n\t\t\tindices = append(indices, i)\n\t\t}\n\t}\n\tgg := make(FeatureSlice, len(indices))\n\tfor i, index := range indices {\n\t\tgg[i] = ff[index]\n\t}\n\treturn gg\n",
     "\tgg := make(FeatureSlice, 0, len(ff))\n\tfor i, f := range ff {\n\t\tif filter(f) {\n\t\t\tgg = append(gg, ff[i])\n\t\t}\n\t}\n\treturn gg\n", silent=True)
 
+# ---------------------------------------------------------------- C01, C16 (tables)
+mut("c01-labels-reader-rename", "C01", "seqio/genbank_subparsers.go", 'consrtmParser := subfieldParser("CONSRTM", depth)', 'consrtmParser := subfieldParser("CONSRTIUM", depth)', ["LABELS|seqio.GenBank.String|label=CONSRTM"])
+mut("c01-labels-writer-rename", "C01", "seqio/genbank.go", 'b.WriteString("DBLINK      ")', 'b.WriteString("DBLINKS     ")', ["LABELS|seqio.GenBank.String|label=DBLINKS"])
+mut("c01-width-remark", "C01", "seqio/genbank.go", '"  REMARK    "', '"  REMARK   "', ["WIDTH|seqio.GenBank.String|prefix=REMARK"])
+mut("c01-width-indent", "C01", "seqio/genbank.go", 'const defaultGenBankIndent = "            "', 'const defaultGenBankIndent = "           "', ["WIDTH|seqio.defaultGenBankIndent"])
+mut("c01-width-extra-formatter", "C01", "seqio/genbank.go", 'return fmt.Sprintf("%-12s%s", name, value)', 'return fmt.Sprintf("%-13s%s", name, value)', ["WIDTH|seqio.genbankFieldFormatter"])
+mut("c01-calendar-jun", "C01", "seqio/date.go", '"JUN": time.June,', '"JUN": time.July,', ["CALENDAR|seqio.monthMap|month=JUN"])
+mut("c01-calendar-march", "C01", "seqio/date.go", "time.March:     31,", "time.March:     30,", ["CALENDAR|seqio.dayMap|month=3"])
+mut("c01-calendar-leap-order", "C01", "seqio/date.go", "\tcase year%400 == 0:\n\t\treturn true\n\tcase year%100 == 0:\n\t\treturn false\n", "\tcase year%100 == 0:\n\t\treturn false\n\tcase year%400 == 0:\n\t\treturn true\n", ["CALENDAR|seqio.isLeapYear"])
+mut("c01-silent-const-label", "C01", "seqio/genbank.go", 'b.WriteString("VERSION     " + gb.Fields.Version + "\\n")', 'const versionLabel = "VERSION     "\n\tb.WriteString(versionLabel + gb.Fields.Version + "\\n")', silent=True)
+mut("c16-layout-76", "C16", "seqio/origin.go", "ret := lines * 76", "ret := lines * 75", ["LAYOUT|seqio.toOriginLength|constants", "LAYOUT-ARITH|seqio.toOriginLength"])
+mut("c16-layout-verb-slow", "C16", "seqio/genbank_subparsers.go", '\t\t\tprefix := []byte(fmt.Sprintf("%9d", i+1))\n\t\t\tif !bytes.HasPrefix(q, prefix) {', '\t\t\tprefix := []byte(fmt.Sprintf("%8d", i+1))\n\t\t\tif !bytes.HasPrefix(q, prefix) {', ["LAYOUT|seqio.slowGenBankOriginParser|index-width"])
+mut("c16-arith-lastblock", "C16", "seqio/origin.go", "return ret + lastBlock + 1", "return ret + lastBlock", ["LAYOUT-ARITH|seqio.toOriginLength"])
+mut("c16-arith-from", "C16", "seqio/origin.go", "lastLine -= 11", "lastLine -= 10", ["LAYOUT-ARITH|seqio.fromOriginLength"])
+mut("c16-layout-validate-step", "C16", "seqio/genbank_subparsers.go", "\t\tfor j := 0; j < 60 && i+j < length; j += 10 {\n\t\t\tif p[offset] != spaceByte {", "\t\tfor j := 0; j < 60 && i+j < length; j += 12 {\n\t\t\tif p[offset] != spaceByte {", ["LAYOUT|seqio.validateOrigin|loops"])
+mut("c16-layout-bytes-index", "C16", "seqio/origin.go", "\t\t\tstart += 9\n", "\t\t\tstart += 8\n", ["LAYOUT|seqio.Origin.Bytes|constants"])
+mut("c16-silent-named-consts", "C16", "seqio/origin.go", "\tlines := length / 60\n\tret := lines * 76\n\n\tlastLine := length % 60\n", "\tconst perLine, lineBytes = 60, 76\n\tlines := length / perLine\n\tret := lines * lineBytes\n\n\tlastLine := length % perLine\n", silent=True)
+
 if __name__ == "__main__":
     here = os.path.dirname(os.path.abspath(__file__))
     ids = [m["id"] for m in M]
